@@ -25,7 +25,7 @@ var solvers = []solverCfg{
 		return []string{"z3-new", fmt.Sprintf("-T:%d", t), fmt.Sprintf("smt.random_seed=%d", seed), f}
 	}},
 	{"cvc5", func(t, seed int, f string) []string {
-		return []string{"/usr/bin/cvc5", fmt.Sprintf("--tlimit=%d", t*1000), fmt.Sprintf("--seed=%d", seed), "--produce-models", f}
+		return []string{"/usr/bin/cvc5", fmt.Sprintf("--tlimit=%d", t*1000), fmt.Sprintf("--seed=%d", seed), "--produce-models", "--strings-exp", f}
 	}},
 }
 
